@@ -124,3 +124,32 @@ Definition value_record (r : relay) (calls : list (Z * N * resp)) (t : Z) (b : b
 
 Definition record_offer (s : strategy) (rs : list relay) (i : N) (b : bid) : Prop :=
   exists r t, In r rs /\ r_idx r = i /\ queried s r = true /\ value_record r (answered s r) t b.
+
+(* ------------------------------------------------------------------------------------------ *)
+(* The statement on an OBSERVED result (what the harness reads off blockauctioneer.Results and off
+   the BuilderBid answers): the winner as (score, category, bid identity), the provider list, a
+   served bid identity.  [P] is the family of acceptable (relay, bid) pairs. *)
+
+Definition obs_winner_is_max (cfgs : bconfs) (P : N -> bid -> Prop) (win : option (Z * N * N)) : Prop :=
+  match win with
+  | None => forall i b, P i b -> score cfgs b = 0%Z
+  | Some (sc, cat, uid) =>
+      (exists i b, P i b /\ b_uid b = uid /\ score cfgs b = sc /\ cat_of cfgs b = cat /\ sc <> 0%Z)
+      /\ forall j b, P j b -> score cfgs b <> 0%Z -> (score cfgs b <= sc)%Z
+  end.
+
+Definition obs_providers_ok (P : N -> bid -> Prop) (win : option (Z * N * N)) (providers : list N) : Prop :=
+  match win with
+  | None => providers = []
+  | Some (_, _, uid) =>
+      exists i b, P i b /\ b_uid b = uid /\ In i providers
+                  /\ forall j, In j providers -> exists b', P j b' /\ b_header b' = b_header b
+  end.
+
+Definition obs_served_ok (cfgs : bconfs) (P : N -> bid -> Prop) (s : option N) : Prop :=
+  match s with
+  | None => forall i b, P i b -> score cfgs b = 0%Z
+  | Some uid =>
+      exists i b, P i b /\ b_uid b = uid /\ score cfgs b <> 0%Z
+                  /\ forall j b', P j b' -> score cfgs b' <> 0%Z -> (score cfgs b' <= score cfgs b)%Z
+  end.
